@@ -116,6 +116,25 @@ Definition receive (msg : list N) (fds : list nat) : rres (listeners (list N * n
         end
     end.
 
+(** descriptors handed to the caller *)
+Definition held_after {A} (r : rres (listeners (A * nat))) : list nat :=
+  match r with
+  | ROk g => map snd (http g ++ tls g ++ tcp g ++ udp g)
+  | RErr _ => []
+  end.
+
+(** [receive_listeners] with its descriptor bookkeeping: the result and the
+    received descriptors it closed itself — all of them on every error path
+    (including more descriptors than a hand-over may carry), the surplus beyond
+    the manifest's entries on success *)
+Definition receive_acct (msg : list N) (fds : list nat)
+  : rres (listeners (list N * nat)) * list nat :=
+  match receive msg fds with
+  | RErr e => (RErr e, fds)
+  | ROk g =>
+    (ROk g, skipn (length (http g) + length (tls g) + length (tcp g) + length (udp g)) fds)
+  end.
+
 (** [send_listeners] then [receive_listeners] *)
 Definition transfer (l : listeners (list N)) : rres (listeners (list N * nat)) :=
   if scm_max_fd <? count l then RErr ESend
